@@ -53,8 +53,24 @@ SCOPE_ENC_OPTS = ENC_OPTS + [{"keep_math": False}, {"enclose_urls": False}, {"ke
 SCOPE_DEC_OPTS = [{}, {"keep_braced_groups": True}, {"keep_math_mode": False}, {"keep_braced_groups": True, "keep_math_mode": False}, {"keep_braced_groups": False, "keep_math_mode": True}]
 
 
+def window_text(r, limit):
+    """A long ordinary text whose length is just below `limit` (its LaTeX encoding is longer than `limit`)."""
+    words = ["Größe", "café", "naïve", "text", "of", "the", "100%", "A&B", "x_y", "señor", "plain", "words"]
+    out = []
+    n = 0
+    target = limit - r.randint(1, 40)
+    while n < target - 8:
+        w = r.choice(words)
+        out.append(w)
+        n += len(w) + 1
+    t = " ".join(out)
+    return t + "x" * max(0, target - len(t))
+
+
 def cases(tier, seed, shard, nshards):
     r = rng_for(seed, shard, "c18")
+    for limit in ([256, 1024, 4096, 32768, 65536] if shard % 2 == 0 else [512, 2048, 8192, 16384, 32768]):
+        yield {"k": "rt", "texts": [window_text(r, limit), "b", "c"], "opts": {}, "inplace": shard % 4 < 2}
     n = tier_pick(tier, 24000, 960000) // nshards
     for i in range(n):
         m = i % 6
